@@ -54,6 +54,18 @@ int main(int argc, char ** argv)
     { ENUConverter c; if (c.isAnchored()) FAIL("default-constructed converter reports anchored"); Eigen::Vector3d o = c.toENU(a); if (o.norm() > 1e-3) FAIL("auto-anchor: first converted point maps to (%.6g,%.6g,%.6g)", o[0], o[1], o[2]); frame_checks(c, a, "auto-anchor on first geodetic point", rng); }
     { ENUConverter c(a); c.toENU(b); c.setAnchor(b); frame_checks(c, b, "construct(A); use; setAnchor(B)", rng); }
     { ENUConverter c(a); c.toENU(b); c.reset(); if (c.isAnchored()) FAIL("reset() leaves the converter anchored"); if (!c.getEnuToEcefTransform().matrix().isApprox(Eigen::Matrix4d::Identity())) FAIL("reset() does not clear the transform"); c.toENU(b); frame_checks(c, b, "construct(A); use; reset; auto-anchor(B)", rng); }
+    // third overload (latitude/longitude only, taken at the stored anchor altitude): same anchoring behaviour as the geodetic overload
+    { ENUConverter c; WGS84Coordinates w = makeWGS84Coordinates(a.latitude, a.longitude); Eigen::Vector3d o = c.toENU(w);
+      if (!c.isAnchored()) FAIL("un-anchored converter did not anchor itself on the first 2-D point (lat=%.9g lon=%.9g)", a.latitude, a.longitude);
+      else if (o.norm() > 1e-3) FAIL("auto-anchor on a 2-D point: the point maps to (%.6g,%.6g,%.6g) instead of the origin", o[0], o[1], o[2]);
+      else frame_checks(c, makeGeodeticCoordinates(a.latitude, a.longitude, c.getAnchor().altitude), "auto-anchor on first 2-D point", rng); }
+    { ENUConverter c(a); c.toENU(b); c.reset(); WGS84Coordinates w = makeWGS84Coordinates(b.latitude, b.longitude); Eigen::Vector3d o = c.toENU(w);
+      if (!c.isAnchored()) FAIL("construct(A); reset; first 2-D point (lat=%.9g lon=%.9g): converter did not re-anchor itself", b.latitude, b.longitude);
+      else if (o.norm() > 1e-3) FAIL("construct(A); reset; first 2-D point maps to (%.6g,%.6g,%.6g) instead of the origin", o[0], o[1], o[2]);
+      else frame_checks(c, makeGeodeticCoordinates(b.latitude, b.longitude, c.getAnchor().altitude), "construct(A); reset; auto-anchor on 2-D point(B)", rng); }
+    { ENUConverter c(a); Eigen::Vector3d o = c.toENU(makeWGS84Coordinates(a.latitude, a.longitude));
+      if (o.norm() > 1e-3) FAIL("anchored converter: the anchor's own latitude/longitude (2-D overload) maps to (%.6g,%.6g,%.6g)", o[0], o[1], o[2]);
+      frame_checks(c, a, "construct(A); 2-D conversion keeps the frame", rng); }
     { ENUConverter c; c.setAnchor(a); c.setAnchor(b); c.toENU(a); c.reset(); c.setAnchor(a); frame_checks(c, a, "setAnchor(A); setAnchor(B); use; reset; setAnchor(A)", rng); }
   }
   if (fails) { printf("%d failing checks\n", fails); return 1; }
